@@ -56,6 +56,18 @@ func (e *Env) invVars(fr *Frame) map[string]Value { return e.invVarsAt(fr, nil) 
 func (e *Env) invVarsAt(fr *Frame, at *ssa.BasicBlock) map[string]Value {
 	vars := map[string]Value{}
 	best := map[string]*ssa.BasicBlock{}
+	cells := map[*Frame]map[string]bool{}
+	for f := fr; f != nil; f = f.parent {
+		m := map[string]bool{}
+		for _, b := range f.fn.Blocks {
+			for _, ins := range b.Instrs {
+				if al, ok := ins.(*ssa.Alloc); ok && al.Comment != "" && al.Comment != "complit" && al.Comment != "varargs" {
+					m[al.Comment] = true
+				}
+			}
+		}
+		cells[f] = m
+	}
 	// outermost first so that inner frames shadow
 	var chain []*Frame
 	for f := fr; f != nil; f = f.parent {
@@ -96,6 +108,11 @@ func (e *Env) invVarsAt(fr *Frame, at *ssa.BasicBlock) map[string]Value {
 				}
 				ob, isVar := d.Object().(*types.Var)
 				if !isVar || ob.IsField() {
+					continue
+				}
+				if cells[f][id.Name] {
+					// an addressable local: its name denotes the cell (bound above), never one of
+					// the values loaded from or stored to it at some program point
 					continue
 				}
 				if v, ok := f.regs[d.X]; ok {
